@@ -4,6 +4,7 @@ package main
 // state carried by parsed objects and by the process (two decodes in one call), results that must not alias their input.
 
 import (
+	"crypto/x509"
 	"bytes"
 	"fmt"
 	"io"
@@ -115,6 +116,32 @@ func init() {
 			return "ok " + toHex([]byte(s))
 		}
 		panic("bad-op")
+	})
+	// the chain built by the library's own constructor NewCertChain(certs, ocsp, sct) instead of by hand (same logical value)
+	register("cert.write.new", func(args []string) string {
+		manual := certurlChain(args[0])
+		if len(manual) == 0 {
+			if _, err := certurl.NewCertChain(nil, nil, nil); err != nil {
+				return "err"
+			}
+			return "ok-empty"
+		}
+		certs := []*x509.Certificate{}
+		for i, a := range manual {
+			if i > 0 && (a.OCSPResponse != nil || a.SCTList != nil) {
+				return "skip"
+			}
+			certs = append(certs, a.Cert)
+		}
+		chain, err := certurl.NewCertChain(certs, manual[0].OCSPResponse, manual[0].SCTList)
+		if err != nil {
+			return "err"
+		}
+		var buf bytes.Buffer
+		if err := chain.Write(&buf); err != nil {
+			return "err"
+		}
+		return "ok " + toHex(buf.Bytes())
 	})
 	// two MI decodes in ONE process, the second result is reported: nothing learnt from the first stream may help the second
 	register("mice.twice", func(args []string) string {
